@@ -71,4 +71,27 @@ theorem exists_path_of_reach {s : σ} (h : M.Reach s) : ∃ p, M.IsPath p ∧ p.
     obtain ⟨p, hp, hl⟩ := ih
     exact ⟨p ++ [_], isPath_append_one hp hl ht, by simp⟩
 
+theorem chain_snoc_inv {p : List σ} {t : σ} (hne : p ≠ []) (hc : M.Chain (p ++ [t])) :
+    M.Chain p ∧ ∃ u, p.getLast? = some u ∧ t ∈ M.succB u := by
+  induction p with
+  | nil => exact absurd rfl hne
+  | cons x xs ih =>
+    cases xs with
+    | nil => exact ⟨trivial, x, rfl, hc.1⟩
+    | cons y ys =>
+      have h2 := ih (by simp) hc.2
+      exact ⟨⟨hc.1, h2.1⟩, by simpa [List.getLast?_cons_cons] using h2.2⟩
+
+/-- a path of at least two states is a shorter path extended by one in-boundary step -/
+theorem isPath_snoc_inv {p : List σ} {t : σ} (hne : p ≠ []) (hp : M.IsPath (p ++ [t])) :
+    M.IsPath p ∧ ∃ u, p.getLast? = some u ∧ t ∈ M.succB u := by
+  obtain ⟨x, rest, heq, hx, hc⟩ := hp
+  cases p with
+  | nil => exact absurd rfl hne
+  | cons y ys =>
+    simp only [List.cons_append, List.cons.injEq] at heq
+    obtain ⟨rfl, _⟩ := heq
+    have := chain_snoc_inv (M := M) (p := y :: ys) (t := t) (by simp) (by simpa using hc)
+    exact ⟨⟨y, ys, rfl, hx, this.1⟩, this.2⟩
+
 end SR.Sys
